@@ -47,6 +47,7 @@ func c19(c *Ctx) {
 	c.quitAwareBlocking()
 	c.lockOrder()
 	c.stickySignals()
+	c.abandonedProducersAreDrained()
 }
 
 // ---- R19.9 ---------------------------------------------------------------------------------
@@ -1357,4 +1358,139 @@ func unsharedObject(v ssa.Value) bool {
 		}
 	}
 	return false
+}
+
+// ---- R19.10 --------------------------------------------------------------------------------
+
+// abandonedProducersAreDrained: a consumer that stops reading a handler's response channel keeps
+// a goroutine reading it until the producer closes it.
+func (c *Ctx) abandonedProducersAreDrained() {
+	P, R := c.P, c.R
+	R.Explain("R19.10", "no blocked producer is left behind: in Session.serve the loop that forwards a command handler's responses (range over the channel returned by handleOther) may be left before the channel is closed only after starting a goroutine that keeps receiving from that channel until it is closed - a plain range over the channel, with no select, no context and without handing the channel to other code.  Handlers send with blocking sends; if the drain can stop early the handler blocks for ever, handleWG.Wait never returns, the state is never released and RemoveUser/Close hang.")
+	f := c.fn("R19.10", "internal/session.(*Session).serve")
+	if f == nil {
+		return
+	}
+	n := 0
+	for _, cs := range engine.Calls(f) {
+		sc := cs.Common().StaticCallee()
+		if sc == nil || engine.ShortName(sc) != "handleOther" || cs.Instr.Parent() != f {
+			continue
+		}
+		ch, ok := cs.Instr.(*ssa.Call)
+		if !ok {
+			continue
+		}
+		// the receive loop on ch in serve
+		var recv *ssa.UnOp
+		for _, b := range f.Blocks {
+			for _, in := range b.Instrs {
+				if u, ok := in.(*ssa.UnOp); ok && u.Op == token.ARROW && (u.X == ssa.Value(ch) || sameOrCell(u.X, ch)) {
+					recv = u
+				}
+			}
+		}
+		if recv == nil {
+			R.Fail("R19.10", c.name(f)+"|responses-forwarded", P.Pos(ch.Pos()), "serve does not receive from the handler's response channel")
+			continue
+		}
+		h := recv.Block()
+		body := engine.LoopBody(h)
+		if body == nil {
+			R.Fail("R19.10", c.name(f)+"|responses-forwarded", P.Pos(recv.Pos()), "the handler's responses are not read in a loop")
+			continue
+		}
+		// drain goroutines: go closures that range over ch until closed
+		drains := map[ssa.Instruction]bool{}
+		for _, b := range f.Blocks {
+			for _, in := range b.Instrs {
+				g, ok := in.(*ssa.Go)
+				if !ok {
+					continue
+				}
+				cl := engine.FuncValue(g.Call.Value)
+				if cl == nil {
+					continue
+				}
+				good, plain := false, true
+				for _, cb := range cl.Blocks {
+					for _, cin := range cb.Instrs {
+						switch t := cin.(type) {
+						case *ssa.Select:
+							plain = false
+						case *ssa.UnOp:
+							if t.Op == token.ARROW && t.CommaOk {
+								if fv, ok := t.X.(*ssa.UnOp); ok {
+									if free, ok := fv.X.(*ssa.FreeVar); ok {
+										for _, bnd := range engine.FreeVarBinding(free) {
+											if al, ok := bnd.(*ssa.Alloc); ok {
+												for _, st := range engine.StoresTo(al) {
+													if st.Val == ssa.Value(ch) {
+														good = true
+													}
+												}
+											}
+										}
+									}
+								}
+								if free, ok := t.X.(*ssa.FreeVar); ok {
+									for _, bnd := range engine.FreeVarBinding(free) {
+										if bnd == ssa.Value(ch) {
+											good = true
+										}
+									}
+								}
+							}
+						case ssa.CallInstruction:
+							// the channel must not be handed to other code (a context-aware helper can stop early)
+							for _, a := range t.Common().Args {
+								if _, isChan := a.Type().Underlying().(*types.Chan); isChan {
+									plain = false
+								}
+							}
+						}
+					}
+				}
+				if good && plain {
+					drains[in] = true
+				}
+			}
+		}
+		// every exit of the forwarding loop other than through the header's "closed" edge passes a drain
+		for b := range body {
+			if b == h {
+				continue
+			}
+			for _, s := range b.Succs {
+				if body[s] {
+					continue
+				}
+				n++
+				// exit edge b -> s: every way from s to a return of serve starts a drain first (or one was started before)
+				covered := len(drains) > 0
+				for d := range drains {
+					if d.Block() == b || d.Block().Dominates(b) {
+						covered = true
+					}
+				}
+				if covered {
+					for _, ret := range engine.Returns(f) {
+						if engine.ReachesAvoidingFrom(s, 0, ret, drains, nil) {
+							startedBefore := false
+							for d := range drains {
+								if d.Block() == b || d.Block().Dominates(b) {
+									startedBefore = true
+								}
+							}
+							if !startedBefore {
+								covered = false
+							}
+						}
+					}
+				}
+				R.Check(covered, "R19.10", c.name(f)+"|early exit of the response loop", P.Pos(firstPosOf(b)), "a goroutine keeps draining the channel until the handler closes it", "serve leaves the response loop before the handler closed its channel without starting a goroutine that plainly ranges over the channel until it is closed: the handler blocks on its next send for ever, the session never finishes and RemoveUser / Close hang")
+			}
+		}
+	}
+	R.Min("R19.10", "early exits of the response-forwarding loop", n, 1)
 }
